@@ -130,6 +130,8 @@ def run(ck, fb, fbd):
             bad = [p for p in eff_pos if p[0] == b and p[1] < i or (p[0] != b and b in f.reachable_from(p[0]))]
             (ck.ok if not bad else lambda r, w, t: ck.violate(r, w, t, "N.reject:%s" % f.pq))("N.reject", f.loc(x), "%s: 'return %s' is not preceded by any state effect" % (name, estr(x.get("x"))[:40]))
         ck.count("reject_returns", len(reject))
+        if name in ("add_face", "add_cell"):
+            nonempty_rule(ck, f, reject)
         if name == "add_face":
             topology_face(ck, f, reject)
         if name == "add_cell":
@@ -198,6 +200,35 @@ def run(ck, fb, fbd):
                 (ck.ok if ok else lambda r, w, t: ck.violate(r, w, t, "C11.valence:%s:cellfaces" % cls.split("::")[-1]))("C11.valence", f.where, "%s::add_cell rejects any face of %s whose valence != %d before delegating" % (cls.split("::")[-1], p0, vals["cell_face"]))
     ck.analysed["construction_functions"] = n_fn
     ck.floor("construction_functions", n_fn, 7)
+
+
+def nonempty_rule(ck, f, reject):
+    """an entity with an empty definition must never come into existence: the downward circulators read element 0"""
+    from .canon import Canon
+    ck.rule("C11.nonempty", "add_face / add_cell reject an empty halfedge / halfface list unconditionally (not only under the topology check): FaceHalfEdgeIter, CellHalfFaceIter and the circulators built on them read the first element of the stored list without a guard, and the file readers call add_face/add_cell without topology check by default")
+    cn = Canon(f)
+    ok = False
+    for b, i, x in reject:
+        fs = {(s_, p_) for s_, p_, c_ in cn.facts(b)}
+        if fs == {("P0.empty()", True)} or fs == {("(0 == P0.size())", True)} or fs == {("(0 != P0.size())", False)}:
+            ok = True
+    (ck.ok if ok else lambda r, w, t: ck.violate(r, w, t, "C11.nonempty:%s" % f.name))("C11.nonempty", f.where, "%s returns the invalid handle for an empty list, whatever the topology-check argument" % f.name)
+
+
+def nonempty_entry(ck, fb):
+    """entry for C07 (readers): the same rule on both kernel functions"""
+    from .lockstep import Ctx
+    c = Ctx(ck, fb)
+    for name, kind in (("add_face", "Face"), ("add_cell", "Cell")):
+        fs = handle_fns(fb, TK, name)
+        if len(fs) != 1:
+            raise AnalysisBroken("TopologyKernel::%s (handle overload) not unique: %d" % (name, len(fs)))
+        f = fs[0]
+        grows = [e for e in c.eff.get(f.id, []) if e["cls"] == "grow" and e["role"] == "def" and e["kind"] == kind]
+        if len(grows) != 1:
+            raise AnalysisBroken("%s: the append to the definition array is not unique (%d)" % (name, len(grows)))
+        rets = [(b, i, x) for b, i, x in f.tops() if x.get("k") == "ret" and b in f.reach()]
+        nonempty_rule(ck, f, [(b, i, x) for b, i, x in rets if not f.dominates(grows[0]["pos"], (b, i))])
 
 
 def dedup_rule(ck, fb):
